@@ -55,7 +55,7 @@ def _num(rng):
 
 
 def _vec(rng, dim):
-    return [rng.choice('VT'), [_num(rng) for _ in range(dim)]]
+    return [rng.choice('VVTTL'), [_num(rng) for _ in range(dim)]]
 
 
 def _value(rng, dim, prop):
@@ -73,6 +73,10 @@ def gen_one(rng, tier):
         for prop in PROPS:
             if rng.random() < 0.4:
                 ctor[prop] = _value(rng, dim, prop)
+                if isinstance(ctor[prop], list) and ctor[prop][0] == 'L':
+                    # lists are only assigned, never given at construction
+                    # (the constructor is documented for tuples)
+                    ctor[prop][0] = 'T'
         transforms.append({'dim': dim, 'ctor': ctor})
     listeners = []
     for _ in range(rng.randint(0, 5)):
@@ -102,6 +106,8 @@ def _mk(desper, dim, spec):
         kind, comps = spec
         if kind == 'V':
             return (desper.math.Vec2 if dim == 2 else desper.math.Vec3)(*comps)
+        if kind == 'L':
+            return list(comps)
         return tuple(comps)
     return spec
 
@@ -200,7 +206,15 @@ def run_case(case):
             outside = not (0 <= assigned < 360)
         else:
             outside = False
-            if not (back == assigned):
+            stored = back == assigned
+            if isinstance(assigned, list):
+                # whether a list is stored as such or as an equal vector is
+                # not stated: compare component-wise
+                try:
+                    stored = list(back) == assigned
+                except TypeError:
+                    stored = False
+            if not stored:
                 res.div(at, 'value-not-stored', f'{prop} read-back differs '
                         'from the assigned value', expected=assigned,
                         observed=back)
